@@ -680,7 +680,7 @@ def _table_jobs(tier, seed):
         fc = c0 + width + 1 + rng.randint(0, 2)
         jobs.append(job_from(f'random{ti}', {'R nd': [tb]},
                              _place(fs, 'R nd', fc, rng.choice([1, r0, max(1, r0 - 1)]),
-                                    f'keys {short(keys)} at {L(c0)}{r0}, width {width}')))
+                                    f'keys {short(keys)} at {L(c0)}{r0}, width {width}', rows=10 if c0 > 100 else None)))
     # S6 entry-point translation
     for name, keys in (SMALL_COLUMNS[1], SMALL_COLUMNS[6], SMALL_COLUMNS[10]):
         tb = Table('S', 3, 2, keys, 3, 'e')
